@@ -489,6 +489,12 @@ def rule_key_paths(ctx, rid):
     ref_fi, ref = tables['__getitem__']
     key0 = ('call', 'emd.sift.SiftConfig.__keytransform__', (), (('key', S('key')),))
     for m, (fi, table) in tables.items():
+        # first reading: the accessor evaluated on literal key paths 'k0', 'k0/k1', 'k0/k1/k2' with the key transform
+        # inlined (string methods of literals, literal slices and loops over literal lists are folded by the
+        # evaluator); the syntactic reading below serves the forms this cannot decide
+        sem = _key_paths_literal(ctx, rid, m, fi)
+        if sem:
+            continue
         # arity cases present and depth == arity
         seen = {}
         for cond, loc in table.items():
@@ -531,6 +537,77 @@ def rule_key_paths(ctx, rid):
     else:
         ctx.violation(rid, kt, "key transform splits on '/' and rejects more than three components",
                       'found return forms %s and %d raise paths' % (rets[:3], len(raises)))
+
+
+def _key_paths_literal(ctx, rid, m, fi):
+    P = ctx.P
+    results = []
+    for arity in (1, 2, 3, 4):
+        comps = ['k%d' % i for i in range(arity)]
+        ev = Evaluator(P, inline=lambda q, d: q.endswith('.__keytransform__'))
+        args = {'key': C('/'.join(comps))}
+        exits = ev.run(fi, args=args)
+        ctx.paths += len(exits)
+        if any(e.state.conds for e in exits) or not exits:
+            return False        # a decision the literal key does not settle
+        store = ('attr', S('self'), 'store')
+        want = store
+        for c_ in comps:
+            want = ('sub', want, C(c_))
+        c = '%s: key path with %d component(s) addresses nesting depth %d' % (m, arity, arity)
+        if arity == 4:
+            c = '%s: a key path with more than three components is rejected' % m
+            if all(e.kind == 'raise' for e in exits):
+                results.append(('pass', c, '%d raise path(s)' % len(exits)))
+            else:
+                results.append(('bad', c, "'k0/k1/k2/k3' is accepted and accesses %s" % show(
+                    [e for e in exits if e.kind != 'raise'][0].value)[:80]))
+            continue
+        if len(exits) != 1:
+            return False
+        e = exits[0]
+        if e.kind == 'raise':
+            if e.value[0] == 'fault':
+                results.append(('bad', c, 'key %r: %s (%s)' % (args['key'][1], e.value[1], e.value[2])))
+                continue
+            results.append(('bad', c, 'key %r is rejected: %s' % (args['key'][1], show(e.value)[:80])))
+            continue
+        if m == '__getitem__':
+            loc = e.value
+        else:
+            kind = 'setitem' if m == '__setitem__' else 'delitem'
+            effs = [eff for eff in e.state.effects if eff[0] == kind]
+            others = [eff for eff in e.state.effects if eff[0] in ('setitem', 'delitem') and eff[0] != kind]
+            if len(effs) != 1 or others:
+                if not effs and not others:
+                    results.append(('bad', c, 'key %r: nothing is %s' % (args['key'][1],
+                                                                          'stored' if kind == 'setitem' else 'deleted')))
+                    continue
+                return False
+            loc = ('sub', effs[0][1], effs[0][2])
+            if kind == 'setitem' and effs[0][3] != S('value'):
+                results.append(('bad', c, 'key %r: the value stored is %s' % (args['key'][1], show(effs[0][3])[:60])))
+                continue
+        if loc == want:
+            results.append(('pass', c, show(loc)[-60:]))
+        elif loc is not None and _rooted_at_store(loc):
+            results.append(('bad', c, 'key %r accesses %s, expected %s' % (args['key'][1], show(loc)[:100], show(want))))
+        else:
+            return False
+    for verdict, c, msg in results:
+        if verdict == 'pass':
+            ctx.passed(rid, fi, c, msg)
+        else:
+            ctx.violation(rid, fi, c, msg)
+    return True
+
+
+def _rooted_at_store(t):
+    while t is not None and t[0] == 'sub':
+        if not is_c(t[2]):
+            return False
+        t = t[1]
+    return t == ('attr', S('self'), 'store')
 
 
 def _chain(loc):
